@@ -23,6 +23,10 @@ static float c18_sample(c18_job *J,uint32_t *st,int ch,long i){
   case 0: return 0.5f*sinf((float)i*(0.02f+0.013f*ch)+ch);
   case 1: x=*st; x^=x<<13; x^=x>>17; x^=x<<5; *st=x?x:1; return ((int)(x&0xffff)-32768)/40000.f;
   case 2: return 0.f;
+  case 5: /* only channel 0 carries signal: tones with noise bursts (forces block switching); the others are digital silence */
+    if(ch!=0) return 0.f;
+    x=*st; x^=x<<13; x^=x>>17; x^=x<<5; *st=x?x:1;
+    return 0.4f*sinf((float)i*0.031f)+(((i/7000)%2)?0.3f*(((int)(x&255)-128)/128.f):0.f);
   default: return (i%997==(ch*31))?0.9f:0.f;
   }
 }
